@@ -380,10 +380,11 @@ func init() {
 			{Name: "parallel", Race: true, Run: trieParallel},
 			firstCallUnit(firstTrie),
 			firstParallelUnit(parTrie),
-			{Name: "bigshapes", TShards: 2, Run: c15BigShapes},
-			{Name: "longmembers", Run: c15LongMembers},
+			{Name: "bigshapes", QShards: 3, TShards: 4, Run: c15BigShapes},
+			{Name: "longmembers", QShards: 4, TShards: 6, Run: c15LongMembers},
 			{Name: "filldrain", QShards: 2, TShards: 6, Run: c15FillDrain},
 			{Name: "families", QShards: 2, TShards: 6, Run: c15Families},
+			{Name: "nested", StallSec: 60, Run: c15Nested},
 		},
 	})
 }
@@ -979,6 +980,74 @@ func c15Families(c *Ctx) {
 			k.Count("histories", 1)
 			k.Count("family_histories", 1)
 			k.Nontrivial([]byte(fmt.Sprint("families", branch)), stem[:16])
+		})
+	}
+}
+
+// c15Nested: a walk started from INSIDE the callback of another walk — over the
+// same trie and over another one (comparing two tries member by member is done
+// exactly so), with Has calls in between; also a walk stopped from inside, and
+// a callback that panics. Each inner walk must report its trie's members; the
+// outer one must go on unharmed. (A walk that never returns is pinned by the
+// watchdog; this unit's cases take microseconds.)
+func c15Nested(c *Ctx) {
+	n := c.N(200, 5000)
+	for i := 0; i < n; i++ {
+		c.Case(int64(i), func(k *K) {
+			r := k.Rand()
+			build := func() (*trie.Trie, *setModel) {
+				t, m := trie.New(), newSetModel()
+				for j := 1 + r.IntN(12); j > 0; j-- {
+					s := string(randSeq(r, []byte("abc"), 1+r.IntN(5)))
+					t.Add([]byte(s))
+					m.Add(s)
+				}
+				return t, m
+			}
+			ta, ma := build()
+			tb, mb := build()
+			k.Input("members_a", ma.Canon())
+			k.Input("members_b", mb.Canon())
+			walk := func(t *trie.Trie) []string {
+				var out []string
+				t.ForEach(func(b []byte) bool { out = append(out, string(b)); return len(out) < 1000 })
+				sort.Strings(out)
+				return out
+			}
+			same := func(got []string, m *setModel) bool { return fmt.Sprintf("%q", got) == m.Canon() }
+			var outer []string
+			bad := ""
+			ta.ForEach(func(b []byte) bool {
+				held := string(b)
+				if in := walk(tb); !same(in, mb) {
+					bad = fmt.Sprintf("a walk over another trie, started inside a callback, reported %q, members are %s", in, mb.Canon())
+				}
+				if in := walk(ta); !same(in, ma) {
+					bad = fmt.Sprintf("a walk over the same trie, started inside its own callback, reported %q, members are %s", in, ma.Canon())
+				}
+				tb.ForEach(func([]byte) bool { return false }) // an inner walk that is stopped at once
+				catch(func() { tb.ForEach(func([]byte) bool { panic("the callback gives up") }) })
+				if !ta.Has(b) || string(b) != held {
+					bad = fmt.Sprintf("the member %q handed to the callback changed to %q (or is not found) while other walks ran inside the callback", held, b)
+				}
+				outer = append(outer, held)
+				return bad == "" && len(outer) < 1000
+			})
+			sort.Strings(outer)
+			if bad == "" && !same(outer, ma) {
+				bad = fmt.Sprintf("the outer walk, inside whose callback other walks ran, reported %q, members are %s", outer, ma.Canon())
+			}
+			if bad != "" {
+				k.Failf("nested-foreach", "%s", bad)
+				return
+			}
+			if got := walk(tb); !same(got, mb) {
+				k.Failf("nested-foreach", "a walk made after nested, stopped and panicking walks reported %q, members are %s", got, mb.Canon())
+				return
+			}
+			k.Count("nested_walks", int64(2*len(outer)))
+			k.Count("foreach_observations", int64(2*len(outer)+2))
+			k.Nontrivial([]byte(ma.Canon()), []byte(mb.Canon()))
 		})
 	}
 }
